@@ -188,6 +188,22 @@ def step (line : String) : String :=
       let show_ : Cli.Decision → String
         | .usageError => "usage-error" | .accept => "accept" | .internalError => "internal-error"
       (Json.mkObj [("ok", Json.str (show_ (Cli.syncDecide x))), ("old", Json.str (show_ (Cli.syncDecideOld x)))]).compress
+    | .ok "param2ast" =>
+      let pr := paramOfJson ((j.getObjVal? "param").toOption.getD Json.null)
+      (resJson (ClassAttr.param2ast pr) fun a =>
+        Json.mkObj [("ann", Json.str (String.ofList a.ann)),
+          ("value", match a.value with
+            | .const v => Json.mkObj [("const", valToJson v)]
+            | .expr src => Json.mkObj [("expr", Json.str (String.ofList src))]
+            | .dict => Json.str "dict")]).compress
+    | .ok "class_attr" =>
+      -- `name: ann = value` read by parse.class_ (no docstring): typ and default of the entry
+      let ann := (optStr j "ann").getD []
+      let value : ClassAttr.AVal := match j.getObjVal? "const" with
+        | .ok cj => .const ((valOfJson cj).toOption.getD .none)
+        | _ => match optStr j "expr" with | some src => .expr src | none => .dict
+      (resJson ((ClassAttr.attrParse ⟨ann, value⟩).bind fun td => ClassAttr.inferDefault (some td.1) td.2) fun r =>
+        Json.mkObj ((match r.1 with | some t => [("typ", Json.str (String.ofList t))] | none => []) ++ [("default", valToJson r.2)])).compress
     | .ok "norm" =>
       let ir := match j.getObjVal? "ir" with | .ok i => irOfJson i | _ => {}
       let inl := (j.getObjValAs? Bool "inline").toOption.getD false
